@@ -125,7 +125,19 @@ ENC = {
     60: [str, str, _v],
     70: [str, _v], 71: [str], 72: [str, _v], 73: [str, _v], 74: [str], 75: [str],
     76: [str, str], 78: [str], 80: [str], 81: [str], 82: [], 83: [str], 84: [str, str], 85: [str],
+    90: [str, B, str, str, S],
 }
+
+
+def as_read(text):
+    """what open(p, encoding='utf8').read() returns for a file holding `text` (universal newlines)"""
+    import io
+    return io.TextIOWrapper(io.BytesIO(text.encode('utf8', 'surrogatepass')), encoding='utf8').read()
+
+
+def parse_op(route, allow, sqlr, dbmlr, text):
+    """OParse; for the file routes the case carries the content as read"""
+    return Op(90, route, allow, sqlr, dbmlr, as_read(text) if route in (2, 3, 5, 6, 7) else text, text)
 
 
 def rdefs_sx(rdefs):
@@ -500,7 +512,54 @@ class Interp:
             return ('text', '1' if sl(a[0]) == sl(a[1]) else '0')
         if c == 85:
             return getattr(sl(a[0]), 'database', None)
+        if c == 90:
+            return self.parse(*a)
         raise Skip()
+
+
+def _parse(self, route, allow, sqlr, dbmlr, text_model, text=None):
+    import os
+    import tempfile
+    from pathlib import Path
+    from pydbml import PyDBML
+    if text is None:
+        text = text_model
+    kw = dict(allow_properties=allow, sql_renderer=self.classes[sqlr], dbml_renderer=self.classes[dbmlr])
+    if route == 0:
+        return PyDBML(text, **kw)
+    if route == 1:
+        return PyDBML.parse(text, **kw)
+    if route == 4:
+        return PyDBML().parse(text, **kw)
+    if route == 8:
+        return PyDBML(12345, **kw)
+    d = tempfile.mkdtemp(prefix='verif_entry_', dir='/var/tmp')
+    p = os.path.join(d, 'doc.dbml')
+    try:
+        with open(p, 'w', encoding='utf8', newline='') as f:
+            f.write(text)
+        if route == 2:
+            return PyDBML(Path(p), **kw)
+        if route == 3:
+            with open(p, encoding='utf8') as f:
+                return PyDBML(f, **kw)
+        if route == 5:
+            return PyDBML.parse_file(p)
+        if route == 6:
+            return PyDBML.parse_file(Path(p))
+        if route == 7:
+            with open(p, encoding='utf8') as f:
+                return PyDBML.parse_file(f)
+    finally:
+        try:
+            os.remove(p)
+            os.rmdir(d)
+        except OSError:
+            pass
+    raise Skip()
+
+
+Interp.parse = _parse
 
 
 def run_script(rdefs, ops):
